@@ -538,18 +538,38 @@ fn op_step(hdr: Vec<u8>, recs: Vec<Vec<u8>>, cap: usize) -> String {
         Ok(it) => it,
         Err(_) => return "new_err seq".into(),
     };
+    // the sibling API without the records must walk the same pairs and report the same errors
+    let plain: Vec<String> = match section.stepthrough() {
+        Err(_) => vec!["new_err".into()],
+        Ok(st) => st
+            .take(cap)
+            .map(|r| match r {
+                Ok(p) => format!("P {}", pair_str(&p)),
+                Err(e) => st_err_str(&e).to_string(),
+            })
+            .collect(),
+    };
     let mut out = Vec::new();
+    let mut proj = Vec::new();
+    let mut ended = false;
     for _ in 0..cap {
         match it.next() {
             None => {
-                out.push("done".to_string());
-                return out.join(" ; ");
+                ended = true;
+                break;
             }
-            Some(Ok((p, r))) => out.push(format!("P {} | {}", pair_str(&p), rec_str(&r))),
-            Some(Err(e)) => out.push(st_err_str(&e).to_string()),
+            Some(Ok((p, r))) => {
+                proj.push(format!("P {}", pair_str(&p)));
+                out.push(format!("P {} | {}", pair_str(&p), rec_str(&r)));
+            }
+            Some(Err(e)) => {
+                proj.push(st_err_str(&e).to_string());
+                out.push(st_err_str(&e).to_string());
+            }
         }
     }
-    out.push("cap".into());
+    out.push(if ended { "done".to_string() } else { "cap".to_string() });
+    out.push(if plain == proj { "plain=ok".to_string() } else { "plain=differ".to_string() });
     out.join(" ; ")
 }
 
